@@ -75,11 +75,12 @@ def byteLen (s : List Char) : Nat := s.foldl (fun n c => n + c.utf8Size) 0
 
 def startsWith (p s : List Char) : Bool := p.isPrefixOf s
 
-/-- validatePath (filters): empty, or pathRegexp and no `$` -/
-def validatePath (s : List Char) : Bool := s.isEmpty || (G.pathRe.test s && !s.contains '$')
+/-- validatePath (filters): empty, or pathRegexp and neither `$` nor a backslash
+(`strings.ContainsAny(path, "$\\")`, /repo commit b4791fc) -/
+def validatePath (s : List Char) : Bool := s.isEmpty || (G.pathRe.test s && !s.contains '$' && !s.contains '\\')
 
-/-- candidate repair of validatePath (notes/C04.md): also reject backslashes -/
-def validatePathRepaired (s : List Char) : Bool := validatePath s && !s.contains '\\'
+/-- validatePath as it was before commit b4791fc (backslashes accepted): kept for the regression witnesses -/
+def validatePathPreFix (s : List Char) : Bool := s.isEmpty || (G.pathRe.test s && !s.contains '$')
 
 /-- HTTPNJSMatchValidator.ValidatePathInMatch -/
 def validatePathInMatch (s : List Char) : Bool := !s.isEmpty && G.pathRe.test s
